@@ -24,7 +24,7 @@ import z3
 
 from . import axioms as AX
 from . import core, daskmodel, h5model, loader, shim
-from .core import SB, SInt, SV, Ctx, PathAbort, Unsupported, _z, badz, evalf, explore, model_env
+from .core import SB, SInt, SV, Ctx, PathAbort, Unsupported, _bad, _z, badz, evalf, explore, model_env
 
 
 class AssumptionFailed(Exception):
@@ -37,6 +37,7 @@ class Outcome:
         self.claims = {}  # name -> SB | bool
         self.finite = {}  # name -> array/scalar that must not be bad
         self.alts = {}  # name -> [(finding key, alternative want)]
+        self.same_keys = set()
         self.extra_axioms = []  # z3 facts (sound instances) supplied by the harness
         self.info = {}
 
@@ -44,6 +45,12 @@ class Outcome:
         self.eq[name] = (got, want)
         if alts:
             self.alts[name] = list(alts)
+
+    def same(self, name, got, ref):
+        """got and ref come from two runs of the real code that must agree, NaN pattern included
+        (finiteness itself is another obligation's business)"""
+        self.eq[name] = (got, ref)
+        self.same_keys.add(name)
 
     def claim(self, name, c, alts=()):
         self.claims[name] = c
@@ -360,6 +367,21 @@ class RealB:
 # helpers
 
 
+def or_leaves(b):
+    """atomic disjuncts of a (nested) disjunction"""
+    out, stack, seen = [], [b], set()
+    while stack:
+        t = stack.pop()
+        if t.get_id() in seen:
+            continue
+        seen.add(t.get_id())
+        if z3.is_or(t):
+            stack.extend(t.children())
+        else:
+            out.append(t)
+    return out
+
+
 def flat(a):
     if hasattr(a, "__sarr__") and not isinstance(a, _np.ndarray):
         a = a.__sarr__()
@@ -398,13 +420,18 @@ def _fl(v):
     return float(v)
 
 
-def num_differs(got, want, rtol=1e-6, atol=1e-8):
-    """numeric comparison of real-backend results; NaN/inf in got counts as a difference"""
+def num_differs(got, want, rtol=1e-6, atol=1e-8, nan_equal=False):
+    """numeric comparison of real-backend results; NaN/inf in got counts as a difference
+    (unless nan_equal: then NaN must match NaN)"""
     if shape_of(got) != shape_of(want):
         return True, "shape %r vs %r" % (shape_of(got), shape_of(want))
     g, w = [_fl(x) for x in flat(got)], [_fl(x) for x in flat(want)]
     worst = 0.0
     for a, b in zip(g, w):
+        if nan_equal and (math.isnan(a) or math.isnan(b)):
+            if math.isnan(a) != math.isnan(b):
+                return True, "NaN pattern differs: %r vs %r" % (a, b)
+            continue
         if math.isnan(a) or math.isinf(a):
             return True, "non-finite value %r (expected %r)" % (a, b)
         if math.isnan(b) or math.isinf(b):
@@ -592,12 +619,18 @@ class Prover:
                     fa, fb = flat(a), flat(b)
                     claims = []
                     seen_bad = set()
+                    if k in getattr(out, "same_keys", ()):
+                        for x, y in zip(fa, fb):
+                            claims.append(z3.Or(badz(x), _z(x) == _z(y)))
+                            if _bad(x) is not None or _bad(y) is not None:
+                                claims.append(badz(x) == badz(y))
+                        fa, fb = [], []
                     for x, y in zip(fa, fb):
                         claims.append(_z(x) == _z(y))
                         for v in (x, y):
                             if isinstance(v, SV) and v.bad is not None:
                                 # conjunct-wise, de-duplicated: finiteness facts are shared by many elements
-                                for t in (v.bad.children() if z3.is_or(v.bad) else [v.bad]):
+                                for t in or_leaves(v.bad):
                                     if t.get_id() not in seen_bad:
                                         seen_bad.add(t.get_id())
                                         claims.append(z3.Not(t))
@@ -609,7 +642,13 @@ class Prover:
                     else:
                         claims = [a.z if isinstance(a, SB) else a]
                 else:
-                    bad = [badz(x) for x in flat(a) if isinstance(x, SV) and x.bad is not None]
+                    bad, seen_b = [], set()
+                    for x in flat(a):
+                        if isinstance(x, SV) and x.bad is not None:
+                            for t in or_leaves(x.bad):
+                                if t.get_id() not in seen_b:
+                                    seen_b.add(t.get_id())
+                                    bad.append(t)
                     claims = [z3.Not(b) for b in bad] or [z3.BoolVal(True)]
             except Exception as e:
                 self.rec(oname, "error", detail="building claim: %r" % (e,))
@@ -783,7 +822,7 @@ class Prover:
             if k in out.eq:
                 got, want = out.eq[k]
                 try:
-                    d, why = num_differs(got, want)
+                    d, why = num_differs(got, want, nan_equal=k in getattr(out, "same_keys", ()))
                 except TypeError as e:
                     d, why = True, "non-numeric result: %r" % (e,)
                 if d:
